@@ -814,6 +814,25 @@ def llvm_intrinsic(E, name):
             x = a[0]
             return x & mask(w - 1) if type(x) is int else x & BVV(mask(w - 1), w)
         return fabs
+    if n.startswith('llvm.fmuladd') or n.startswith('llvm.fma.'):
+        # a*b+c; fmuladd leaves fusing to the target: the unfused form (two roundings) is what the x86-64 product build without
+        # -mfma computes. Concrete operands are evaluated, symbolic ones go to z3's floating-point theory.
+        w = 32 if n.endswith('f32') else 64
+        def fmuladd(E, st, fr, a, d):
+            import struct
+            from decode import bits2f, f2bits, tofp
+            x, y, c = a[0], a[1], a[2]
+            if type(x) is int and type(y) is int and type(c) is int:
+                def rnd(v):
+                    return struct.unpack('<f', struct.pack('<I', f2bits(v, 32)))[0] if w == 32 else v
+                try:
+                    r = rnd(rnd(bits2f(x, w) * bits2f(y, w)) + bits2f(c, w))
+                except (OverflowError, ValueError):
+                    r = float('nan')
+                return f2bits(r, w)
+            RNE = z3.RNE()
+            return z3.fpToIEEEBV(z3.fpAdd(RNE, z3.fpMul(RNE, tofp(x, w), tofp(y, w)), tofp(c, w)))
+        return fmuladd
     if n.startswith('llvm.is.constant'): return lambda E, st, fr, a, d: 0
     if n.startswith('llvm.objectsize'): return lambda E, st, fr, a, d: M64
     return None
